@@ -4,7 +4,12 @@ Source ASTs of the documented language are generated, printed as .bard text and
   (a) compiled by the REAL compiler: the dict must equal compile_ref of the AST (Story/Source.v), compared inside Coq;
       compile-to-file + JSON load must give the same dict as compiling in memory;
   (b) played by the REAL engine along random choice sequences: every step must equal the model's play of
-      compile_ref of the AST (for which the reference meaning is proved), compared inside Coq.
+      compile_ref of the AST (for which the reference meaning is proved), compared inside Coq;
+  (c) string level: the Gallina twin of this file's printer (Story/SourcePrint.v print_story) must print, line by line,
+      the text the real compiler is given (before the comment decoration); `printable` (the hypothesis of
+      Props/C01.v printed_story_parses_to_compile_ref) is evaluated with the call shapes of Python's own `ast`, and
+      where it holds the parser model on the printed lines must be compile_ref (compared inside Coq; the number of
+      generated ASTs that are not printable is reported as ast_not_printable).
 Theorems: coq/Props/C01.v."""
 from __future__ import annotations
 
@@ -589,5 +594,6 @@ def run(tier: str, seed: int) -> int:
     chk.notes["input_distribution"] = stats
     chk.assumptions = ["expressions avoid '^' (tags: documented position is the end of a line)", "generated code stays inside the mini-Python of Lang/PyMini.v"]
     return chk.finish(props, C.BASE_TRUST + ["Story/Source.v compile_ref: the specification of the compiler on source ASTs (tied to the real "
-                                             "compiler by this run); the .bard printer of harness/c01.py"],
+                                             "compiler by this run); the .bard printer of harness/c01.py (tied line by line to Story/SourcePrint.v print_story, for which "
+                                             "parse_real (print_story s) = compile_ref s is proved)"],
                       "make -C /verif/coq && coqc -Q /verif/coq Bardic /verif/coq/Props/C01.v")
